@@ -231,8 +231,10 @@ func GenerateRoutes(
 	logger.Debug("Formatting %d bytes of output code", len(result))
 	formattedOutput, err := compilation.OptimizeImportsAndFormat(result)
 	if err != nil {
-		logger.Warn("Could not format output - %v", err)
-		formattedOutput = result
+		// The rendered code is not valid Go (e.g. an annotation value that breaks a string literal).
+		// Writing it would hand the user a file that cannot compile while reporting success.
+		logger.Error("Generated routes are not valid Go code - %v", err)
+		return fmt.Errorf("generated routes for engine '%s' are not valid Go code - %w", args.Engine, err)
 	}
 
 	err = os.MkdirAll(filepath.Dir(args.OutputPath), 0755)
